@@ -160,6 +160,9 @@ func genC06(r *Rng, tier string) []Case {
 			b.Exchanges = append(b.Exchanges, mkEx("https://"+hosts[r.Intn(len(hosts))]+"/r"+string(alnumBytes(r, 4)), []int{0, 1, 16, 33, 100}[r.Intn(5)]))
 		}
 		b.Exchanges = append(b.Exchanges, mkEx("https://example.com/", 10))
+		if bi%4 == 1 { // two representations of one URL (a variant set): the signer supports one exchange per URL only
+			b.Exchanges = append(b.Exchanges, mkEx("https://example.com/", 12))
+		}
 		rs := []int{1, 16, 17, 4096}[r.Intn(4)]
 		date := baseDate + int64(r.Intn(100000))
 		dur := int64([]int{3600, 604800, 1, 604801}[r.Intn(4)])
@@ -548,13 +551,21 @@ func genC07(r *Rng, tier string) []Case {
 		stack := []ibSig{}
 		stack0 := stackInSx(stack)
 		atts := []Sx{}
-		for s := 2 + r.Intn(4); s > 0; s-- {
+		mostlyGood := i%2 == 1 // every other history: mostly successful calls, signer objects alternating
+		nAtt := 2 + r.Intn(4)
+		if mostlyGood {
+			nAtt = 4 + r.Intn(3)
+		}
+		for s := nAtt; s > 0; s-- {
 			seed := r.Bytes(32)
 			priv := ed25519.NewKeyFromSeed(seed)
 			recorded := []byte(priv.Public().(ed25519.PublicKey))
 			// 0,1 good; 2 key mismatch; 3 refusing strategy; 4 padded signature; 5 attribute name that is not
 			// UTF-8; 6 attributes naming another key; 7 attributes without the key; 8 a 31/33-byte key
 			kind := r.Intn(9)
+			if mostlyGood && r.Chance(3, 4) {
+				kind = 0
+			}
 			if kind == 2 {
 				recorded = []byte(ed25519.NewKeyFromSeed(r.Bytes(32)).Public().(ed25519.PublicKey))
 			}
@@ -592,12 +603,17 @@ func genC07(r *Rng, tier string) []Case {
 				stab = L(L(B(dtbs), B(sig)))
 			}
 			vtab := L(L(B(recorded), B(dtbs), B(sig), Bool(len(recorded) == ed25519.PublicKeySize && ed25519.Verify(ed25519.PublicKey(recorded), dtbs, sig))))
-			atts = append(atts, L(B(recorded), attrsSx(attrs), stab, vtab, seedSx, B(pad)))
+			which := int64(r.Intn(2))
+			if mostlyGood {
+				which = int64(s % 2)
+			}
+			atts = append(atts, L(B(recorded), attrsSx(attrs), stab, vtab, seedSx, B(pad), Zi(which)))
 			if kind < 2 {
 				stack = append([]ibSig{{attrs, sig}}, stack...)
 			}
 		}
 		cs = append(cs, Case{"ib_sign_attempts", []Sx{B(hash), stack0, L(atts...)}})
+		cs = append(cs, Case{"ib_sign_shared", []Sx{B(hash), stack0, L(atts...)}})
 	}
 	// whole files through the sign-bundle binary
 	m := 12
